@@ -666,7 +666,7 @@ def _walk_form(ctx, f, raw, pub):
     what = unmangle(f.name)
     # walker candidates: functions nested in f, and module functions / static methods f calls with the task itself as first argument
     # (further parameters bound to constants at that call, e.g. the name of the link attribute)
-    cands = [(g, {}, None) for g in prog.all_funcs() if g.parent is f]
+    cands = [(g, {}, None) for g in prog.all_funcs() if g.parent is f and not isinstance(g.node, ast.Lambda)]
     for ci in ctx.cg.calls_in(f):
         c = ci.node
         if ci.kind != 'call' or not isinstance(c, ast.Call) or not c.args or not (isinstance(c.args[0], ast.Name) and c.args[0].id == f.self_name):
@@ -678,7 +678,15 @@ def _walk_form(ctx, f, raw, pub):
             for prm, arg in zip(g.params[1:], facts.bound_args(c, g, drop_self=False)[1:]):
                 if isinstance(arg, ast.Constant):
                     consts[prm] = arg.value
+                elif isinstance(arg, ast.Lambda) and len(arg.args.args) == 1:
+                    consts[prm] = arg                # the accessor of the direct links, e.g. lambda t: t.predecessors
             cands.append((g, consts, c))
+            # the helper may in turn hold the walker as a nested function started with the helper's own first parameter
+            for g2 in prog.all_funcs():
+                if g2.parent is g and g2.params and any(
+                        isinstance(n, ast.Call) and isinstance(n.func, ast.Name) and n.func.id == g2.name and n.args and
+                        isinstance(n.args[0], ast.Name) and n.args[0].id == g.params[0] for n in walk_no_nested(g.node)):
+                    cands.append((g2, consts, c))
     # generator METHODS of the task called as self.m(): the walked task is the method's own receiver, the recursion is v.m()
     method_form = set()
     for ci in ctx.cg.calls_in(f):
@@ -719,6 +727,11 @@ def _walk_form(ctx, f, raw, pub):
                 n = m['n']
                 val = n.value if isinstance(n, ast.Constant) else (consts.get(n.id) if isinstance(n, ast.Name) else None)
                 return val in (pub, raw)
+            m = match(f"$fn({p})", it)
+            if m and isinstance(m['fn'], ast.Name) and isinstance(consts.get(m['fn'].id), ast.Lambda):
+                lam = consts[m['fn'].id]
+                a = lam.args.args[0].arg
+                return bool(match(f"{a}.{raw}", lam.body) or match(f"{a}.{pub}", lam.body))
             return False
         rec_calls = [n for n in ast.walk(g.node) if isinstance(n, ast.Call) and is_rec(n)]
         for lp in [n for n in walk_no_nested(g.node) if isinstance(n, ast.For)]:
@@ -732,6 +745,38 @@ def _walk_form(ctx, f, raw, pub):
                                                         f"len({v}.{raw})", f"len({v}.{pub})"))
             # `if v.<rel>: yield from rec(v)` only skips an empty list: same as the unconditional step
             body = [(s.body[0] if isinstance(s, ast.If) and skips_empty(s.test) and len(s.body) == 1 and not s.orelse else s) for s in body]
+            # leaving the loop early (return / break, typically "already visited"): the remaining elements of this task are never walked
+            for st in body:
+                for n in ast.walk(st):
+                    if isinstance(n, (ast.Return, ast.Break)) and not isinstance(st, (ast.FunctionDef, ast.For, ast.While)):
+                        return ('bad', g, st, st, f"{what} abandons the loop over t.{unmangle(raw)} (`{src(st)[:50].splitlines()[0]} ..`): the elements "
+                                                  f"after that one are never walked, the closure is incomplete where chains join")
+            # visited-set prelude: `if id(v) in seen: continue` + `seen.add(id(v))` only suppresses repeated visits
+            def prelude(st):
+                if isinstance(st, ast.If) and len(st.body) == 1 and isinstance(st.body[0], ast.Continue) and not st.orelse:
+                    return bool(match(f"id({v}) in $s", st.test) or match(f"{v} in $s", st.test))
+                if isinstance(st, ast.Expr) and (match(f"$s.add(id({v}))", st.value) or match(f"$s.add({v})", st.value)):
+                    return True
+                return False
+            body = [st for st in body if not prelude(st)]
+            # list building recursion: acc.append(v); acc.extend(rec(v))
+            ap = [i for i, st in enumerate(body) if isinstance(st, ast.Expr) and match(f"$acc.append({v})", st.value)]
+            rc = []
+            for i, st in enumerate(body):
+                x = None
+                if isinstance(st, ast.Expr) and match("$acc.extend($x)", st.value):
+                    x = match("$acc.extend($x)", st.value)['x']
+                elif isinstance(st, ast.AugAssign) and isinstance(st.op, ast.Add):
+                    x = st.value
+                if x is not None and any(isinstance(n, ast.Call) and is_rec(n, v) for n in ast.walk(x)):
+                    rc.append(i)
+            if ap and rc:
+                if ap[0] > rc[0]:
+                    return ('bad', g, lp, lp, "descendants are collected before the task itself (not pre-order)")
+                if len(body) == 2:
+                    return ('ok', g, g.node, f"for x in t.{unmangle(raw)}: acc.append(x); acc.extend(rec(x))")
+            if ap and not rc and not rec_calls:
+                return ('bad', g, g.node, f.qual, f"{what} does not walk t.{unmangle(raw)} transitively: only the direct elements are collected")
             for st in body:
                 if isinstance(st, ast.If) and any(isinstance(n, ast.Yield) and isinstance(n.value, ast.Name) and n.value.id == v
                                                   for n in ast.walk(st)):
@@ -798,6 +843,35 @@ def _walk_form(ctx, f, raw, pub):
                 return ('ok', f, f.node, f"for x in self.{unmangle(raw)}: acc.append(x); acc.extend(x.{what}())")
         if ap and not rc and not self_calls and not any(isinstance(n, ast.Attribute) and n.attr == pub_all for n in ast.walk(f.node)):
             return ('bad', f, f.node, f.qual, f"{what} does not walk self.{unmangle(raw)} transitively: only the direct elements are collected")
+    # explicit stack, pre-order:  pending = list(reversed(self.<raw>)); while pending: cur = pending.pop(); acc.append(cur);
+    #                             pending.extend(reversed(cur.<raw>))
+    def rev_of(e, owner):
+        m = match("list(reversed($x))", e) or match("reversed($x)", e) or match("$x[::-1]", e) or match("list($x)[::-1]", e)
+        return bool(m and (match(f"{owner}.{raw}", m['x']) or match(f"{owner}.{pub}", m['x'])))
+    fl = flow_of(f)
+    for w in [n for n in walk_no_nested(f.node) if isinstance(n, ast.While)]:
+        t = w.test
+        stack = t.id if isinstance(t, ast.Name) else (match("len($s) > 0", t) or match("len($s)", t) or match("len($s) != 0", t) or {}).get('s')
+        stack = stack.id if isinstance(stack, ast.Name) else stack
+        if not isinstance(stack, str):
+            continue
+        inits = [d for d in fl.defs_of(stack) if d.kind == 'assign' and d.value is not None]
+        pops = [st for st in w.body if isinstance(st, ast.Assign) and len(st.targets) == 1 and isinstance(st.targets[0], ast.Name) and
+                match(f"{stack}.pop()", st.value)]
+        if len(inits) != 1 or len(pops) != 1:
+            continue
+        cur = pops[0].targets[0].id
+        apps = [st for st in w.body if isinstance(st, ast.Expr) and match(f"$acc.append({cur})", st.value)]
+        pushes = [st for st in w.body if (isinstance(st, ast.Expr) and match(f"{stack}.extend($x)", st.value)) or
+                  (isinstance(st, ast.AugAssign) and match(stack, st.target))]
+        if not apps:
+            continue
+        if not pushes:
+            return ('bad', f, w, w, f"{what} pops the tasks of self.{unmangle(raw)} from a work list but never pushes their own "
+                                    f"{unmangle(raw)}: only the direct elements are collected")
+        px = match(f"{stack}.extend($x)", pushes[0].value)['x'] if isinstance(pushes[0], ast.Expr) else pushes[0].value
+        if rev_of(inits[0].value, s) and rev_of(px, cur) and len(pushes) == 1 and len(apps) == 1 and len(w.body) == 3:
+            return ('ok', f, w, "explicit stack: pop, collect, push the reversed children (depth-first pre-order)")
     return ('unknown', f, f.node, f"{what}: closure helper in an unrecognised form")
 
 
@@ -807,7 +881,10 @@ def closure(ctx, o):
              ('task.Task.__get_all_predecessors', 'predecessors', 'predecessors'),
              ('task.Task.__get_all_successors', 'successors', 'successors')]
     for q, raw, pub in specs:
-        f = prog.func(q)
+        f = prog.funcs.get(q)
+        if f is None:
+            # the private helper was folded away: the public getter computes the closure itself (through whatever it calls)
+            f = prog.funcs.get('task.Task.all_' + pub) or prog.func(q)
         r = _walk_form(ctx, f, raw, pub)
         if r[0] == 'ok':
             o.site(r[1], r[2], r[3])
@@ -1433,26 +1510,50 @@ def facades(ctx, o):
         # a local with one plain definition per branch: every definition is judged
         ds = flow_of(f).reaching(val.id, cfg.node_of(s_)) if isinstance(val, ast.Name) else []
         if len(ds) > 1 and all(d.kind == 'assign' and d.value is not None and d.node is not None for d in ds):
-            st2 += [(s_, d.node, d.value) for d in ds]
+            st2 += [(s_, d.node, d.value, val.id) for d in ds]
         else:
-            st2.append((s_, cfg.node_of(s_), val))
-    for s_, at_, val in st2:
+            st2.append((s_, cfg.node_of(s_), val, None))
+    for s_, at_, val, var in st2:
         vx = ex.expand(val, at_)
-        m = match("list($x)", vx) or match("[$y for $y in $x]", vx)
+        m = match("list($x)", vx) or match("[$y for $y in $x]", vx) or match("$x.copy()", vx) or match("$x[:]", vx)
         if m:
             vx = m['x']
+        if var is not None and (match("self._list", vx) or match("self", vx)):
+            o.site(f, s_, f"`{var}` starts as the child list itself")
+            continue
         if isinstance(vx, ast.Call) and isinstance(vx.func, ast.Name) and vx.func.id in ('sorted', 'reversed') and vx.args:
             arg = vx.args[0]
+            if var is not None and isinstance(arg, ast.Name) and arg.id == var:
+                # x = <the list>; (loop) x = sorted(x, ..): every definition of x is a permutation of the previous one
+                o.site(f, s_, f"`{var}` = sorted({var}, ..): a permutation of its previous value")
+                continue
             m = match("list($x)", arg) or match("$x.copy()", arg) or match("$x[:]", arg) or match("[$y for $y in $x]", arg)
             if m:
                 arg = m['x']
+            pv = _partition_verdict(arg)
+            cp = facts.comp_parts(arg)
+            filtered = (cp is not None and cp[3]) or (isinstance(arg, ast.Call) and isinstance(arg.func, ast.Name) and arg.func.id == 'filter')
             if match("self._list", arg) or match("self", arg):
                 o.site(f, s_, "self._list = sorted(self._list, ...)")
+            elif pv is True:
+                o.site(f, s_, "self._list = sorted(<two complementary filters of the list>, ...)")
+            elif pv:
+                o.refute(f, s_, s_, f"sort rebuilds the child list from two filters of it, `{pv[0]}` and `{pv[1]}`, that are not each other's "
+                                    f"complement: {pv[2]}")
+            elif not filtered:
+                o.undecided(f, s_, s_, f"sort replaces the child list by `{src(vx)[:60]}`: not recognised as a permutation of it")
             else:
                 o.refute(f, s_, s_, f"sort replaces the child list by `{src(vx)[:60]}`: sorted() of something else than the whole child list "
                                     f"is not a permutation of it")
         else:
-            o.undecided(f, s_, s_, f"sort replaces the child list by `{src(vx)[:60]}`: not recognised as a permutation of it")
+            part = _partition_verdict(vx)
+            if part is True:
+                o.site(f, s_, "the list is rebuilt from two complementary filters of itself (one of them sorted)")
+            elif part:
+                o.refute(f, s_, s_, f"sort rebuilds the child list from two filters of it, `{part[0]}` and `{part[1]}`, that are not each other's "
+                                    f"complement: {part[2]} - such children are dropped from the list while they still name the parent")
+            else:
+                o.undecided(f, s_, s_, f"sort replaces the child list by `{src(vx)[:60]}`: not recognised as a permutation of it")
     _published(ctx, o, f)
     # reorder
     f = prog.func('task._ChildrenList.reorder')
@@ -1540,6 +1641,35 @@ def move_anchor(ctx, o, eff):
             continue        # a moved task that is not in the list fails in remove(), before anything of it was changed
         T.require(ctx, o, f, f"move(): {label} (else index(anchor) fails after remove(task) and the task is lost from the child list)",
                   R, writes, eff, needs_elem)
+
+
+def _partition_verdict(vx):
+    """vx = A + B where A, B are (sorted) filters of self._list by conditions c1, c2.  True: c2 is the syntactic complement of c1
+    (every element lands in exactly one part); (c1, c2, why): positively not complementary; None: not that shape / cannot tell"""
+    if not (isinstance(vx, ast.BinOp) and isinstance(vx.op, ast.Add)):
+        return None
+    conds = []
+    for side in (vx.left, vx.right):
+        if isinstance(side, ast.Call) and isinstance(side.func, ast.Name) and side.func.id in ('sorted', 'list') and side.args:
+            side = side.args[0]
+        parts = facts.comp_parts(side)
+        if not (parts and isinstance(parts[0], ast.Name) and isinstance(parts[1], ast.Name) and parts[0].id == parts[1].id and
+                (match("self._list", parts[2]) or match("self", parts[2])) and len(parts[3]) == 1):
+            return None
+        # same element variable name for comparison
+        conds.append(_rename(parts[3][0], {parts[1].id: 'ELEM'}))
+    (c1, p1), (c2, p2) = facts.norm_cond(conds[0], True), facts.norm_cond(conds[1], True)
+    if same(c1, c2) and p1 != p2:
+        return True
+    # truthiness on one side, None-ness on the other: falsy values that are not None (0, '', False) are in neither / both parts
+    for (a, pa), (b, pb) in (((c1, p1), (c2, p2)), ((c2, p2), (c1, p1))):
+        m = match("$e is None", b)
+        if m and same(m['e'], a):
+            if pa and pb:
+                return (src(conds[0]), src(conds[1]), "an element whose value is falsy but not None (0, '', False) is in neither part")
+            if not pa and not pb:
+                return (src(conds[0]), src(conds[1]), "an element whose value is falsy but not None (0, '', False) is in both parts")
+    return None
 
 
 def _alias(f, e, at):
